@@ -94,6 +94,10 @@ fn main() {
             c07::debug_thr(p.seed);
             return;
         }
+        "c16-debug" => {
+            c16::debug(p.get("i").and_then(|x| x.parse().ok()).unwrap_or(2), p.get("t").and_then(|x| x.parse().ok()).unwrap_or(3), p.get("d").and_then(|x| x.parse().ok()).unwrap_or(500), p.get("every").and_then(|x| x.parse().ok()).unwrap_or(2));
+            return;
+        }
         "c10-debug" => {
             c10::debug(p.get("seq").unwrap_or(""), p.seed);
             return;
